@@ -11,13 +11,13 @@ from collections import OrderedDict
 ID = "C17"
 
 RULE = ("each run = one operation history (construction + 3..25 mapping operations, keys from a pool of "
-        "30 spellings of 9 names incl. bytes (some with a UTF-8 byte order mark), sharp-s, dotless-i and digraph case variants) on one of "
+        "36 spellings of 11 names incl. bytes (some with a UTF-8 byte order mark), sharp-s, dotless-i and digraph case variants) on one of "
         "CaselessDict/Parameters/Component/Event/Calendar/Timezone, executed step by step against a "
         "reference dict keyed by to_unicode(key).upper(); non-trivial = the history reached at least one "
         "probe (case-variant hit, failing op checked for atomicity, derived object adopted, ...); distinct = "
         "distinct abstract histories (class, op kinds, key-case class and present/absent per step)")
-STATE_MEASURE = "distinct sets of upper-cased names stored (9 names -> 512 possible)"
-STATE_SPACE = 512
+STATE_MEASURE = "distinct sets of upper-cased names stored (11 names -> 2048 possible)"
+STATE_SPACE = 2048
 HARNESS_COMPONENTS = ["history generator", "reference dict model", "failing-iterable fault"]
 ASSUMPTIONS = [
     "pop(key) is compared with dict.pop(KEY, None): the classes declare default=None themselves",
@@ -42,7 +42,7 @@ REQUIRED_PROBES["thorough"] = REQUIRED_PROBES["quick"]
 
 CLASSES = ["CaselessDict", "Parameters", "Component", "Event", "Calendar", "Timezone"]
 
-# 30 spellings of 9 names
+# 36 spellings of 11 names
 NAMES = {
     "SUMMARY": [["s", "summary"], ["s", "SUMMARY"], ["s", "Summary"], ["s", "sUmMaRy"],
                 ["b", "summary"], ["b", "SUMMARY"], ["bom", "Summary"]],
@@ -54,6 +54,9 @@ NAMES = {
     "VERSION": [["s", "version"], ["s", "VERSION"]],
     "PRODID": [["s", "prodid"], ["s", "PRODID"]],
     "Ǆ": [["s", "ǆ"], ["s", "Ǆ"], ["s", "ǅ"]],
+    # names that are also names of parameters of the mapping methods (a keyword argument must not bind to them)
+    "OTHER": [["s", "other"], ["s", "OTHER"], ["s", "Other"]],
+    "SELF": [["s", "self"], ["s", "Self"], ["b", "self"]],
 }
 NAME_LIST = list(NAMES)
 SPECIAL = {"STRASSE", "ID", "Ǆ"}
